@@ -21,7 +21,7 @@ import json,sys
 p,out,suite,w,wo=sys.argv[1:]
 json.dump({"property":p,"origin":"independent sub-agent given only the property text and a scratch worktree",
            "needs_to_manifest":"see NOTES.md","confirmed":{"repo_suite_with_change":suite,"demo_exit_with_change":int(w),"demo_exit_without_change":int(wo),
-           "how":"tools/harvest_seed.sh: pytest in the worktree with PYTHONPATH=<worktree>/src; demo.py with the change and after git stash"}},
+           "how":"tools/harvest_seed.sh: pytest in the worktree with PYTHONPATH=<worktree>/src; demo.py with the change and with the change reverse-applied (git apply -R)"}},
           open(out+"/meta.json","w"),indent=1)
 PY
 echo "kept as $OUT"
